@@ -831,6 +831,11 @@ impl Sim {
                 _ => {}
             }
         }
+        if self.cov.cells.len() < 4000 {
+            let mut t: Vec<&str> = e.tags.iter().copied().filter(|t| *t != "tie" && *t != "legacy_id").collect();
+            t.sort();
+            *self.cov.cells.entry(format!("{}:{}", kind, t.join(","))).or_insert(0) += 1;
+        }
         // coverage fingerprints of the amounts judged
         let mut h = Fnv::new();
         h.str(kind);
@@ -940,8 +945,12 @@ impl Sim {
                 true,
             );
             if c2 != cfg_post {
+                // role lists that are not the ones requested also falsify "only configured
+                // executors / approvers" after a configuration change (C05)
+                let roles_differ = c2.executors != cfg_post.executors || c2.approvers != cfg_post.approvers;
+                let props: Vec<&str> = if roles_differ { vec!["C12", "C05"] } else { vec!["C12"] };
                 self.flag(
-                    &["C12"],
+                    &props,
                     "L2.config_installed",
                     kind,
                     &qual,
